@@ -153,4 +153,4 @@ def r07_3(ctx):
 
 
 def run(ctx):
-    engine.run_rules(ctx, [hazard.r07_1, r07_2, r07_3, dt.r05_6, dt.r05_7, dt.r02_1, dt.r02_2, dt.r02_3, dt.r02_6, ras.r01_5, sd.r04_4, dt.r03_6, dt.r03_7, ras.r10_2, sd.r09_4, ras.r01_9, dt.r03_2, dt.r05_3, ras.r10_5])
+    engine.run_rules(ctx, [hazard.r07_1, r07_2, r07_3, dt.r05_6, dt.r05_7, dt.r02_1, dt.r02_2, dt.r02_3, dt.r02_6, ras.r01_5, sd.r04_4, dt.r03_6, dt.r03_7, ras.r10_2, sd.r09_4, ras.r01_9, dt.r03_2, dt.r05_3, ras.r10_5, ras.r01_6])
